@@ -585,6 +585,17 @@ func (s *SweepingProvider) schedulePrefixNoLock(prefix bitstr.Key, justReprovide
 		// Already scheduled.
 		return
 	}
+	// The keys of the scheduled prefixes that `prefix` subsumes are reprovided
+	// along with it from now on. Take over the earliest of their upcoming
+	// reprovide times if it comes before the prefix's own one, so that none of
+	// these keys waits longer than it would have.
+	if subsumed, ok := keyspace.FindSubtrie(s.schedule, prefix); ok {
+		for entry := range keyspace.EntriesIter(subsumed, s.order) {
+			if s.timeUntil(entry.Data) < s.timeUntil(nextReprovideTime) {
+				nextReprovideTime = entry.Data
+			}
+		}
+	}
 	// Unschedule superstrings in schedule if any.
 	s.unscheduleSubsumedPrefixesNoLock(prefix)
 
